@@ -119,7 +119,10 @@ def run_history(pages, rng, nsteps):
                 lab.reindex()
             except Exception as e:
                 return f"final reindex raised {type(e).__name__}: {str(e)[:200]}", ops
-            got = _dump(lab)
+            try:
+                got = _dump(lab)
+            except Exception as e:
+                return f"reading the index after the history raised {type(e).__name__}: {str(e)[:200]} (a rebuilt index of the same files is read without error)", ops
             final_files = lab.files()
             with Lab() as fresh:
                 for rel, t in final_files.items():
@@ -142,6 +145,36 @@ def run_history(pages, rng, nsteps):
                     k = [x for x in a if a[x] != b[x]][0]
                     return f"{a['page']}:{a['line']} {k}: after history {a[k]!r} != rebuild {b[k]!r}", ops
     return None, ops
+
+
+def _directed(pages, edited):
+    from freezegun import freeze_time
+
+    with Lab() as lab:
+        for rel, t in pages.items():
+            lab.write(rel, t)
+        with freeze_time("2024-04-01 09:00:00"):
+            lab.create()
+        with freeze_time("2024-04-02 09:00:00"):
+            lab.write(edited, lab.read(edited).replace("second page", "second page, edited"))
+            try:
+                lab.reindex()
+                lab.reindex()
+            except Exception as e:
+                return f"reindex raised {type(e).__name__}: {str(e)[:200]}"
+            try:
+                got = _dump(lab)
+            except Exception as e:
+                return f"reading the index after editing {edited} raised {type(e).__name__}: {str(e)[:200]}"
+            final = lab.files()
+            with Lab() as fresh:
+                for rel, t in final.items():
+                    fresh.write(rel, t)
+                fresh.create()
+                want = _dump(fresh)
+        if got != want:
+            return f"index after editing {edited}: {[(d['page'], d['zid']) for d in got]} != rebuild {[(d['page'], d['zid']) for d in want]}"
+    return None
 
 
 def is_f9(case) -> bool:
@@ -167,6 +200,18 @@ def histories(tier, seed):
             fails.append({"pages": pages, "error": err, "ops": [list(o) for o in ops]})
         if i == 0:
             samples.append({"ops": [list(o) for o in ops]})
+    # directed histories (always run): pages whose names differ only at a LIKE wildcard position / in letter case; the later
+    # indexed one is edited and reindexed
+    for pair in (("e-f.zo", "e_f.zo"), ("A.zo", "a.zo"), ("sub/cXd.zo", "sub/c_d.zo")):
+        pages = {pair[0]: "# First\n\n- 240301#p1 note in the first page\no P1 240301#p2 todo in the first page\n\n",
+                 pair[1]: "# Second\n\n- 240301#p3 note in the second page\n\n"}
+
+        class Script(random.Random):
+            """edit a note of the second page, then plain reindex, twice"""
+
+        err = _directed(pages, pair[1])
+        if err:
+            fails.append({"pages": pages, "error": err, "ops": [["directed-wildcard-pair", pair[0], pair[1]]]})
     return {"name": "history_vs_rebuild", "bound": f"{n} generated directories x histories of {5 if tier == 'quick' else 9} steps (edit/add/delete/move notes, add/delete/rename pages, header edits, reindex with/without paths, day advancing), final plain reindex compared with a fresh db create of the final files",
             "evaluations": n, "distinct_nontrivial": nontriv, "failures": fails, "samples": samples, "replay_fn": "replay_history"}
 
